@@ -14,6 +14,11 @@ def handleAuth (op : String) (args : List String) : Option String :=
       | some (a, rest) => s!"some time={hex a.time} len={a.dwLength} rev={a.rev} type={a.ctype} guid={hex a.guid} data={hex a.data} rest={rest.length}"
       | none => "none"
     some s!"model={m} spec={s}"
+  | "auth.write", [t, l, rv, ct, hc, g, d] =>
+    -- encode a descriptor VALUE (fields as the caller holds them; hc = what the embedded header keeps as body)
+    let v : Impl.AuthDesc := ⟨unhex t, ⟨⟨natArg l, natArg rv, natArg ct, unhex hc⟩, unhex g, unhex d⟩⟩
+    let a : Spec.Auth := ⟨unhex t, natArg l, natArg rv, natArg ct, unhex g, unhex d⟩
+    some s!"model={hex (Impl.writeAuth v)} spec={hex (Spec.encAuth a)}"
   | "wincert.read", [h] =>
     let bs := unhex h
     some (outcomeStr (fun (x : Impl.WinCert × Bytes) =>
